@@ -105,3 +105,20 @@ def cs_linked_broken(trace, i, par):
     st = trace[i]['st']
     ch = st['chain']
     return any((par[ch[k] - 1] if 1 <= ch[k] <= len(par) else -1) != (ch[k - 1] if k else 0) for k in range(len(ch)))
+
+
+def tx_block_during_consume(trace, i, uni):
+    """F10: a block was processed while the consumer had added transaction t to the mempool but not yet to the unconfirmed
+    set (parked at utx.afterMempool), and t is in that block or spends an outpoint spent by a transaction of that block:
+    the block takes t for 'seen, not relevant' (no proof), or evicts t as a double spend without a cancel update."""
+    for k in range(1, i + 1):
+        a = trace[k]['act']
+        if a['a'] == 'Block' and not trace[k].get('skip'):
+            pre = trace[k - 1]['st']
+            if pre['c']['pc'] != 'mid':
+                continue
+            t = pre['c']['t']
+            blk = uni['blk'][a['t'] - 1]
+            if t in blk or any(set(uni['ins'][t - 1]) & set(uni['ins'][x - 1]) for x in blk):
+                return True
+    return False
